@@ -51,21 +51,23 @@ def source_files(root="/repo"):
 
 
 def group(f):
-    if f == "src/util.rs":          # CRC table and Buffer are used by both layers
-        return {"parser", "transport"}
-    return {"parser"} if f.startswith("src/parser/") else {"transport"}
+    """layer of a source file; `src/util.rs` (CRC, Buffer, byte sources) belongs to every property"""
+    if f == "src/util.rs":
+        return "util"
+    return "parser" if f.startswith("src/parser/") else "transport"
 
 
 def groups_of(prop):
-    """source groups a property depends on: those of its anchor files (C10 also parses what it reads)"""
+    """layers a property depends on: those of its anchor files, always `util` (C10 also parses what it reads)"""
+    g = {"util"}
     for l in open(os.path.join(V, "properties.jsonl")):
         d = json.loads(l)
         if d["id"] == prop:
-            g = set().union(*[group(f) for f in d["anchors"]["files"]])
+            g |= {group(f) for f in d["anchors"]["files"]}
             if prop == "C10":
                 g.add("parser")
             return g
-    return {"parser", "transport"}
+    return {"util", "parser", "transport"}
 
 
 def drift(prop):
@@ -76,7 +78,7 @@ def drift(prop):
         return ["srcmap.json missing"]
     gs = groups_of(prop)
     cur = {f: file_hash(os.path.join("/repo", f)) for f in source_files()}
-    return sorted(f for f in set(m) | set(cur) if (group(f) & gs) and m.get(f) != cur.get(f))
+    return sorted(f for f in set(m) | set(cur) if group(f) in gs and m.get(f) != cur.get(f))
 
 
 def main():
